@@ -426,14 +426,16 @@ def covariance_native(vc):
     ok = len(grads) == p and np.allclose(Kv, B)
     worst = 0.0
     for t in range(p):
-        h = 1e-5
-        e = np.zeros(p)
-        e[t] = h
-        # 4th-order central difference
-        fd = (-K.build_covariance(theta + 2 * e) + 8 * K.build_covariance(theta + e)
-              - 8 * K.build_covariance(theta - e) + K.build_covariance(theta - 2 * e)) / (12 * h)
-        err = np.abs(grads[t] - fd).max() / max(1e-8, np.abs(fd).max(), np.abs(B).max())
-        worst = max(worst, float(err))
+        # 4th-order central differences at three step sizes: truncation error dominates at the large step when a
+        # change-point is steep, rounding at the small one; a wrong analytic gradient is off at every step size
+        errs = []
+        for h in (1e-4, 1e-5, 1e-6):
+            e = np.zeros(p)
+            e[t] = h
+            fd = (-K.build_covariance(theta + 2 * e) + 8 * K.build_covariance(theta + e)
+                  - 8 * K.build_covariance(theta - e) + K.build_covariance(theta - 2 * e)) / (12 * h)
+            errs.append(np.abs(grads[t] - fd).max() / max(1e-8, np.abs(fd).max(), np.abs(B).max()))
+        worst = max(worst, float(min(errs)))
     vc.inputs["worst_gradient_error"] = worst
     vc.ensures("gradients_match_finite_differences", bool(ok) and worst < 1e-6)
 
